@@ -28,6 +28,14 @@ def cases(tier, seed):
                 rec["md"] = [gen.gen_metadata(r, set())]
             yield mk_case(None, None, r.choice([True, False, None]), unrooted=rec)
             continue
+        if r.random() < 0.3:
+            # name stress: deep tree over a tiny pool of prefix-related names, shallow target, branch-writing options
+            t = gen.gen_tree(r, rootname=r.choice(["a", "root", "ab"]), maxdepth=5, md=0.2, budget=[r.choice([8, 12, 16])],
+                             tiny=True, classes=["Node", "Node", "Array"])
+            paths = gen.tree_paths(t)
+            shallow = [p for p in paths if 1 <= len(p) <= 2] or paths
+            yield mk_case(t, r.choice(shallow), r.choice([True, None, True, False]))
+            continue
         t = gen.gen_tree(r, rootname=gen.gen_name(r, set(), odd=0.2), maxdepth=r.choice([2, 3, 5]), md=0.5)
         paths = gen.tree_paths(t)
         if tier == "thorough" and i % 4 == 0:
